@@ -5,7 +5,7 @@
    (astype float64; the reader of the current layout passes the stored dtype and keeps the payload).  [fstate] is the complete state: region corners with their int/float tag,
    dims, units, tolerance factor, n, bc, subregions (ordered, with corners and attributes),
    nvdim, labels, unit, data kind, values, validity. *)
-From DF Require Import Prelude Region Mesh Hdf5 C10_hdf5.
+From DF Require Import Prelude Region Mesh Hdf5 C10_hdf5 CheckSound Check_C10 C10_sound.
 Open Scope Q_scope.
 
 (* read (write f) is f; the only difference collected in [canon] is a representation tag:
@@ -135,3 +135,122 @@ Theorem C10_roundtrip_absent_labels :
   decode round_f64 (NewFile (encode w_nolabels)) = OK w_nolabels.
 Proof. exact nolabels_kept. Qed.
 Print Assumptions C10_roundtrip_absent_labels.
+
+(* ---- the tie, proved: soundness of the correspondence checker.  A case of a shard that evaluates
+   to true certifies the relations below between the OBSERVED file / read-back state and the
+   model's.  The relations ([h5new_sim], [fstate_sim], [back_rel], proofs/C10_sound.v) are Leibniz
+   equality on every attribute except: rationals are compared by value (Qeq); the int/float tag of
+   SUBREGION corners (f_subk, the table's kind) is not compared; the data kind is compared only as
+   real versus complex. *)
+Theorem C10_check_round_sound : forall dom f file back,
+  check_C10 (CRound dom f (Some file) back) = true ->
+  h5new_sim (encode f) file /\ back_rel (decode cval_conv (NewFile file)) back.
+Proof. exact check_round_sound. Qed.
+Print Assumptions C10_check_round_sound.
+Theorem C10_check_round_domain_sound : forall f file back,
+  check_C10 (CRound true f (Some file) back) = true ->
+  wf_field f /\ exists b, back = Some b /\ fstate_sim (canon f) b.
+Proof. exact check_round_domain_sound. Qed.
+Print Assumptions C10_check_round_domain_sound.
+Theorem C10_check_round_nofile : forall dom f back, check_C10 (CRound dom f None back) = false.
+Proof. exact check_round_nofile. Qed.
+Print Assumptions C10_check_round_nofile.
+Theorem C10_check_read_sound : forall file back,
+  check_C10 (CRead file back) = true -> back_rel (decode cval_conv file) back.
+Proof. exact check_read_sound. Qed.
+Print Assumptions C10_check_read_sound.
+(* a whole shard: no failing index means every case was accepted *)
+Theorem C10_shard_verdict : forall cases k,
+  failing k (map check_C10 cases) = [] -> forall c, In c cases -> check_C10 c = true.
+Proof. exact (failing_nil_all check_C10). Qed.
+Print Assumptions C10_shard_verdict.
+(* both hypotheses of C10_roundtrip are ESTABLISHED by an accepted in-domain case (the in_domain
+   flag set by the harness is not trusted for them): well-formedness by the evaluated test, and the
+   unit guard because a marker unit would come back absent and differ from [canon f] *)
+Theorem C10_accepted_in_domain : forall f file back,
+  check_C10 (CRound true f (Some file) back) = true -> wf_field f /\ f_unit f <> Some none_marker.
+Proof. exact accepted_in_domain. Qed.
+Print Assumptions C10_accepted_in_domain.
+(* transfer of C10_roundtrip / C10_roundtrip_state: the state the implementation read back is the
+   model's read (write f), and attribute by attribute it is the field that was written *)
+Theorem C10_accepted_roundtrip : forall f file back,
+  check_C10 (CRound true f (Some file) back) = true ->
+  exists b, back = Some b /\
+    (exists g, decode cval_conv (NewFile (encode f)) = OK g /\ fstate_sim g b) /\
+    f_ck b = f_ck f /\ mesh_sim (f_mesh f) (f_mesh b) /\ f_nvdim b = f_nvdim f /\
+    f_vdims b = f_vdims f /\ f_unit b = f_unit f /\ f_vals b = f_vals f /\ f_valid b = f_valid f /\
+    is_complex (f_dk b) = is_complex (f_dk f).
+Proof. exact accepted_roundtrip. Qed.
+Print Assumptions C10_accepted_roundtrip.
+(* transfer of C10_second_generation: the observed read-back state is (related to) a well-formed
+   fixed point of write-then-read *)
+Theorem C10_accepted_second_generation : forall f file back,
+  check_C10 (CRound true f (Some file) back) = true ->
+  exists b, back = Some b /\ fstate_sim (canon f) b /\ wf_field (canon f) /\
+    decode cval_conv (NewFile (encode (canon f))) = OK (canon f).
+Proof. exact accepted_second_generation. Qed.
+Print Assumptions C10_accepted_second_generation.
+(* transfer of C10_table_exact: the subregion table of the OBSERVED file names the subregions in
+   order and holds every corner exactly *)
+Theorem C10_accepted_table_exact : forall f file back,
+  check_C10 (CRound true f (Some file) back) = true -> subs (f_mesh f) <> [] ->
+  exists names k rows, h_subs file = Some (names, (k, rows)) /\
+    names = map fst (subs (f_mesh f)) /\
+    Forall2 (Forall2 Qeq) (map (fun s => pmin (snd s) ++ pmax (snd s)) (subs (f_mesh f))) rows.
+Proof. exact accepted_table_exact. Qed.
+Print Assumptions C10_accepted_table_exact.
+Theorem C10_accepted_file_header : forall dom f file back,
+  check_C10 (CRound dom f (Some file) back) = true ->
+  h_type file = file_type /\ h_version file = file_version /\
+  h_shape file = n (f_mesh f) ++ [f_nvdim f] /\ h_arr file = f_vals f /\ h_valid file = f_valid f.
+Proof. exact accepted_file_header. Qed.
+Print Assumptions C10_accepted_file_header.
+(* transfer of the refusal theorems: the implementation raised *)
+Theorem C10_accepted_refused_type : forall h back,
+  check_C10 (CRead (NewFile h) back) = true -> h_type h <> file_type -> back = None.
+Proof. exact accepted_refused_type. Qed.
+Print Assumptions C10_accepted_refused_type.
+Theorem C10_accepted_refused_version : forall h back,
+  check_C10 (CRead (NewFile h) back) = true -> h_type h = file_type -> h_version h <> file_version ->
+  back = None.
+Proof. exact accepted_refused_version. Qed.
+Print Assumptions C10_accepted_refused_version.
+(* transfer of C10_legacy: what the implementation read from a legacy file *)
+Theorem C10_accepted_legacy : forall (l : h5legacy cval) back,
+  check_C10 (CRead (LegacyFile l) back) = true ->
+  Forall2 (fun a b => ~ a == b) (l_p1 l) (l_p2 l) -> (0 < length (l_p1 l))%nat ->
+  length (l_n l) = length (l_p1 l) -> Forall (fun k => 0 < k)%Z (l_n l) ->
+  (1 <= l_dim l)%Z -> l_shape l = l_n l ++ [l_dim l] ->
+  match l_side l with None => True | Some items => Forall (wf_side (length (l_p1 l))) items end ->
+  let r := legacy_region (l_p1 l) (l_p2 l) in
+  exists b, back = Some b /\
+    fstate_sim (mkF (kjoin (l_ck1 l) (l_ck2 l))
+                    (mkMesh r (l_n l) "" (legacy_subs r (l_side l)))
+                    (match l_side l with None => [] | Some items => map sd_ck items end)
+                    (l_dim l) (default_vdims (l_dim l)) None (conv_dk (l_dk l))
+                    (conv_vals cval_conv (l_dk l) (l_arr l))
+                    (repeat true (Z.to_nat (zprod (l_n l))))) b.
+Proof. exact accepted_legacy. Qed.
+Print Assumptions C10_accepted_legacy.
+(* non-vacuity: concrete accepted cases *)
+Example C10_accepted_round_instance :
+  check_C10 (CRound true (ex_field [KFloat] DFloat ex_vals) (Some (ex_file DFloat ex_vals))
+                    (Some (ex_field [KFloat] DFloat ex_vals))) = true.
+Proof. exact accepted_round_instance. Qed.
+Print Assumptions C10_accepted_round_instance.
+(* how coarse an accepted case is: the integer / floating kind of the payload (read back, and of
+   the written dataset) and the int / float tag of subregion corners are NOT certified *)
+Example C10_coarse_data_kind_instance :
+  let f := ex_field [KFloat] DInt ex_ivals in
+  let b := ex_field [KFloat] DFloat ex_ivals in
+  check_C10 (CRound true f (Some (ex_file DInt ex_ivals)) (Some b)) = true /\
+  f_dk b <> f_dk (canon f).
+Proof. exact coarse_data_kind_instance. Qed.
+Print Assumptions C10_coarse_data_kind_instance.
+Example C10_coarse_subregion_kind_instance :
+  let f := ex_field [KFloat] DFloat ex_vals in
+  let b := ex_field [KInt] DFloat ex_vals in
+  check_C10 (CRound true f (Some (ex_file DFloat ex_vals)) (Some b)) = true /\
+  f_subk b <> f_subk (canon f).
+Proof. exact coarse_subregion_kind_instance. Qed.
+Print Assumptions C10_coarse_subregion_kind_instance.
